@@ -4,8 +4,8 @@ S1  TLC checks WarmUp.tla (exact rational transcription of the warm-up calculato
     saturating counters => histories of any length): on the configurations of class Healthy the effective threshold is
     defined, in [0, T], admitted <= T, cold after idle, warm after sustained demand, no starvation.  A second run over
     ALL configurations never fails but prints a LEAD for every reachable state in which the transcription leaves the
-    envelope (the defect classes: maxToken = warningToken, cold rate below one token, warningToken = 0, token count
-    resting on the warning line).  MemAdaptive.tla: end points, range, monotone, finite on a grid.
+    envelope (the open defect classes: maxToken = warningToken, warningToken = 0, threshold below the cold factor;
+    the repaired ones - starvation, token count resting on the warning line - no longer appear).  MemAdaptive.tla: end points, range, monotone, finite on a grid.
 S2  scenarios: the LEAD histories, TLC random simulation of WarmUp (demand 0 / 1 / saturating per second), seeded random
     warm-up histories (phases of saturating / idle / steady single-token / random demand, and free-running request times
     and batches) and seeded random memory-adaptive rules with probes on and around the water marks.
@@ -23,6 +23,7 @@ K_STARVED = 'C11/warmup-cold-rate-below-one-token/starved-forever'
 K_NEVERCOLD = 'C11/warmup-warningToken-zero/never-cold'
 K_STUCK = 'C11/warmup-tokens-rest-on-warning-line/not-cold-after-idle'
 K_STARVED_EDGE = 'C11/warmup-cold-rate-exactly-one-token/float-rounds-below-one/starved-forever'
+K_NOTRECOOLED = 'C11/warmup-threshold-below-coldFactor/never-refilled-above-warning-line/not-cold-after-idle'
 
 
 # ----------------------------------------------------------------------------- the classes of WarmUpOps, in Python
@@ -60,7 +61,11 @@ def classify(c, scn, exp):
     if cls == 'degenerate' and why in ('E1', 'E2'):
         return K_DEGENERATE
     if cls == 'cold-below-one' and why in ('E3', 'E4'):
-        return K_STARVED
+        return K_STARVED        # (repaired by 7ba6ba0: listed as fixed, so a return of it is a VIOLATION)
+    if cls == 'cold-below-one' and why == 'E2':
+        # 1 <= T < coldFactor: uint32(T)/coldFactor = 0, so at or above the warning line the bucket is never refilled and the
+        # rule is not cold again after an idle period (visible since 7ba6ba0 lets such a rule serve requests at all)
+        return K_NOTRECOOLED
     if cls == 'never-cold' and why == 'E2':
         return K_NEVERCOLD
     al = e.get('model_allowed') or [0, 0]
@@ -390,7 +395,7 @@ def check(c, tier, replay):
     skip_s1 = bool(os.environ.get('VERIF_SKIP_S1'))         # mutant trials only
     # S1 ---------------------------------------------------------------------------------
     if not skip_s1:
-        r = c.model_check('WarmUp_MC', cfg_text=wu_cfg('MCConfigsBig' if thorough else 'MCConfigs', 'ScopeHealthy', True, ENVELOPE_INV),
+        r = c.model_check('WarmUp_MC', cfg_text=wu_cfg('MCConfigsBig' if thorough else 'MCConfigs', 'ScopeHealthy', False, ENVELOPE_INV),
                           workers=8, timeout=1500)
         if not r.completed:
             c.inconclusive.append('WarmUp.tla: %s violated on a configuration of class Healthy - the classification of the defect '
@@ -407,8 +412,6 @@ def check(c, tier, replay):
             d = json.loads(json.loads(l)[5:])
             cfg = d['h'][0]
             cls = wu_class(cfg)
-            if cls == 'healthy' and d['stuck']:
-                cls = 'stuck'
             k = (cls, json.dumps(cfg, sort_keys=True), tuple(d['broken']))
             if k not in leads or len(d['h']) < len(leads[k]):
                 leads[k] = d['h']
@@ -417,11 +420,11 @@ def check(c, tier, replay):
         by_cls.setdefault(cls, []).append(hh)
     c.cov['leads'] = {k: len(v) for k, v in by_cls.items()}
     c.log('S1 leads (states in which the transcription leaves the envelope), shortest history per configuration and clause: %s' % c.cov['leads'])
-    for cls in ('degenerate', 'cold-below-one', 'never-cold', 'stuck'):
+    for cls in ('degenerate', 'cold-below-one', 'never-cold'):
         if not by_cls.get(cls):
             raise MachineryError('lead run produced no history for the class %s (vacuous)' % cls)
     if by_cls.get('healthy'):
-        c.inconclusive.append('lead run: a Healthy configuration leaves the envelope without resting on the warning line: %s' % by_cls['healthy'][0][:6])
+        c.inconclusive.append('lead run: a configuration of class Healthy leaves the envelope: %s' % by_cls['healthy'][0][:8])
     c.cov['exhaustive'] = True
     # S2 ---------------------------------------------------------------------------------
     tr = 0
